@@ -209,8 +209,9 @@ func Verif_C46_Headers() {
 // whole block and returns (nil, io.EOF).
 func Verif_C46_EmptyHeaderValue() {
 	k := "aa"[:verifrt.Choose(1, 2)]
+	v := "b"[:verifrt.Choose(0, 1)] // "" (fails, known finding) or "b" (control: round-trips)
 	n := verifrt.Choose(0, 1)
-	c46RoundTrip(n, "PGP SIGNATURE", map[string]string{k: ""})
+	c46RoundTrip(n, "PGP SIGNATURE", map[string]string{k: v})
 }
 // c46HeaderOK is the domain on which "Key: Value" lines are decodable: see Verif_C46_Headers.
 func c46HeaderOK(k, v string) bool {
@@ -294,4 +295,4 @@ func c46BadCRC(maxN int) {
 }
 
 func Verif_C46_BadCRC()  { c46BadCRC(1) }
-func Verif_C46_BadCRCT() { c46BadCRC(5) }
+func Verif_C46_BadCRCT() { c46BadCRC(2) }
